@@ -13,3 +13,4 @@ from . import errno_         # noqa: F401
 from . import compare        # noqa: F401
 from . import unpack         # noqa: F401
 from . import prims          # noqa: F401
+from . import buffers        # noqa: F401
